@@ -9,7 +9,7 @@ rm -rf $wt; git -C /repo worktree add -q --detach $wt HEAD || exit 9
 mkdir -p $wt/SEED && cp -r /verif/seeded/$name/. $wt/SEED/
 export CARGO_TARGET_DIR=$wt/target CARGO_NET_OFFLINE=true
 cd $wt
-demo=$(ls SEED/run_demo.sh SEED/demo/run_demo.sh SEED/demo/run.sh SEED/run.sh 2>/dev/null | head -1)
+demo=$(ls SEED/run_demo.sh SEED/demo/run_demo.sh SEED/demo/run.sh SEED/run.sh SEED/demo/demo.sh 2>/dev/null | head -1)
 {
 echo "== demo script: $demo"
 git apply SEED/patch.diff && echo "patch applied"
